@@ -7,10 +7,13 @@ package main
 import (
 	"crypto/sha256"
 	"fmt"
+	"math/big"
 	"os"
 	"path/filepath"
 	"reflect"
+	"regexp"
 	"sort"
+	"strconv"
 	"strings"
 	"sync"
 
@@ -451,6 +454,8 @@ func c05Class(ns string, src string, oc outcome) string {
 	return ""
 }
 
+var c05OtherIDs = regexp.MustCompile(`(?m)^(?:attributes #|!)(\d+) =`)
+
 func runC05(c *config) {
 	o := c.out
 	if c.replay != "" {
@@ -523,6 +528,44 @@ func runC05(c *config) {
 			default:
 				o.Pass("duplicate_is_error")
 			}
+		}
+	}
+	// undefined references by number: module shapes with named and unnamed entities and definitions of other
+	// namespaces in between (their IDs take no global number), plus one use @K of a number no entity carries
+	ru := newRng(c.seed, "c05-numbers")
+	for i := 0; i < 200*c.scale; i++ {
+		src, _, kinds, named := c08ModuleText(ru)
+		unnamed := 0
+		for k := range kinds {
+			if !named[k] {
+				unnamed++
+			}
+		}
+		// (without the module's own uses by number: the dangling use is the only one)
+		var kept []string
+		for _, l := range strings.Split(src, "\n") {
+			if !strings.HasPrefix(l, "@ref") {
+				kept = append(kept, l)
+			}
+		}
+		src = strings.Join(kept, "\n")
+		// candidates: numbers just past the last one, and the IDs the other namespaces use in this module
+		cands := []int{unnamed, unnamed + 1 + ru.intn(8)}
+		for _, m := range c05OtherIDs.FindAllStringSubmatch(src, -1) {
+			if k, err := strconv.Atoi(m[1]); err == nil && k >= unnamed {
+				cands = append(cands, k, k+1)
+			}
+		}
+		bad := src + fmt.Sprintf("@dangling = global i32* @%d\n", cands[ru.intn(len(cands))])
+		_, oc, msg := parseGuard(bad)
+		o.Stat("fault.undefined_number")
+		switch oc {
+		case ocOk:
+			o.Fail("undefined_or_duplicate", "", "a use @N of a number that no unnamed global carries is accepted", map[string]string{"src": bad})
+		case ocPanic:
+			o.Fail("undefined_or_duplicate", "", "a use @N of an undefined number crashes the parser", map[string]string{"src": bad, "msg": msg})
+		default:
+			o.Pass("undefined_is_error")
 		}
 	}
 	// type aliases through the skeleton model: undefined target, defined target, cycle
@@ -611,11 +654,11 @@ func runC12(c *config) {
 		inputs = append(inputs, string(b))
 	}
 	// a module with many entries per map
-	var big strings.Builder
+	var bigMod strings.Builder
 	for i := 0; i < 40; i++ {
-		fmt.Fprintf(&big, "%%t%d = type { i32, %%t%d* }\n$c%d = comdat any\n@g%d = global i32 %d, comdat($c%d)\nattributes #%d = { nounwind }\n!%d = !{!%d}\n!n%d = !{!%d}\n", i, (i+7)%40, i, i, i, i, i, i, (i+3)%40, i, i)
+		fmt.Fprintf(&bigMod, "%%t%d = type { i32, %%t%d* }\n$c%d = comdat any\n@g%d = global i32 %d, comdat($c%d)\nattributes #%d = { nounwind }\n!%d = !{!%d}\n!n%d = !{!%d}\n", i, (i+7)%40, i, i, i, i, i, i, (i+3)%40, i, i)
 	}
-	inputs = append(inputs, big.String())
+	inputs = append(inputs, bigMod.String())
 	// named scalar types: constants typed with a named type next to constants of the plain type, in
 	// several functions and in separate inputs (shared constant objects must not carry state between parses)
 	inputs = append(inputs,
@@ -744,6 +787,52 @@ func runC12(c *config) {
 		if idx < 2 {
 			o.Sample(map[string]interface{}{"digest": first, "module_prefix": src[:min(200, len(src))]})
 		}
+	}
+	// many goroutines, many rounds, inputs that go through every literal path of the parser (decimal, u0x and
+	// negative s0x integers of different widths, hexadecimal floats of every kind, character arrays, named
+	// types): each concurrent parse must print what the same text prints when parsed alone
+	var heavy []string
+	for k, w := range []int{8, 16, 24, 32, 48, 64, 96, 128} {
+		var b strings.Builder
+		for j := 0; j < 40; j++ {
+			top := new(big.Int).Lsh(big.NewInt(1), uint(w-1))
+			v := new(big.Int).Add(top, big.NewInt(int64(j*7+k))) // sign bit set: a negative s0x literal
+			fmt.Fprintf(&b, "@s%d = global i%d s0x%X\n@u%d = global i%d u0x%X\n@d%d = global i%d %d\n", j, w, v, j, w, v, j, w, -(j + 1))
+		}
+		fmt.Fprintf(&b, "@f = global double 0x%X\n@h = global half 0xH%04X\n@c = global [3 x i8] c\"a\\%02Xb\"\n", 0x3FF0000000000000+uint64(k), 0x3C00+k, 65+k)
+		heavy = append(heavy, b.String())
+	}
+	alone := make([]string, len(heavy))
+	for i, src := range heavy {
+		alone[i] = digestOf(src)
+	}
+	var mu sync.Mutex
+	diffs := 0
+	firstBad := ""
+	var wg2 sync.WaitGroup
+	for g := 0; g < 16; g++ {
+		wg2.Add(1)
+		go func(g int) {
+			defer wg2.Done()
+			for round := 0; round < 12*c.scale; round++ {
+				i := (g + round) % len(heavy)
+				if d := digestOf(heavy[i]); d != alone[i] {
+					mu.Lock()
+					diffs++
+					if firstBad == "" {
+						firstBad = fmt.Sprintf("input %d (i%d literals), goroutine %d, round %d: %s, alone: %s", i, []int{8, 16, 24, 32, 48, 64, 96, 128}[i], g, round, d, alone[i])
+					}
+					mu.Unlock()
+				}
+			}
+		}(g)
+	}
+	wg2.Wait()
+	o.StatN("concurrent_heavy_parses", 16*12*c.scale)
+	if diffs > 0 {
+		o.Fail("deterministic", "", fmt.Sprintf("%d concurrent parses of unrelated inputs differ from the parse of the same text alone", diffs), map[string]string{"first": firstBad, "src": heavy[0]})
+	} else {
+		o.Pass("deterministic")
 	}
 }
 
